@@ -740,6 +740,21 @@ def C20(tier):
                 qworkers=8, qtimeout=nm(tier == "quick", 200, 600), validate_cubes=0,
                 bounds="solve3 with non-vanishing leading coefficient and discriminant >= 0 (Cardano branch): coefficients symbolic reals in [-4,4]; "
                        "sqrt/cbrt by their defining equations; the trigonometric branch (disc < 0) is outside")]
+    obs.append(dict(name="rootfinder-cubic-trig", pkg="internal/geom", func="Harness_C20_solve3trig", consts={"AFIX": 0, "BFIX": 0, "ANUM": 1, "ADEN": 1, "BNUM": 0, "BDEN": 1},
+                    cubes=[{"REGION": r} for r in (0, 1, 2, 3)], solver="z3-new", oneshot=True, qworkers=8, qtimeout=nm(tier == "quick", 200, 600), validate_cubes=0,
+                    bounds="solve3 with non-vanishing leading coefficient and discriminant < 0 (trigonometric branch): coefficients symbolic reals in [-4,4] (cube 0: whole domain; "
+                           "cubes 1-3: the same claim restricted to q > 0, q < 0, q = 0 so that a counterexample confined to one quadrant of the angle is the model returned); "
+                           "cos((atan2(y,x)+2k*pi)/3) by the triple-angle identity and its branch interval, sqrt/cbrt by their defining equations"))
+    B = ("real curveIntersects (MODE 1: + curveContained) on a concrete control polygon and one barrier with symbolic real end points in [-8,8]; a symbolic parameter t in [0,1] "
+         "stands for any curve point; leading coefficients inside the root finder's epsilon band (non-zero but < 1e-7) excluded; exact real arithmetic. Only control polygons "
+         "whose polynomial against the barrier's line is linear, quadratic or constant are registered: for genuinely cubic ones z3's nlsat does not decide the queries within 600 s "
+         "(also not with solve3 replaced by its contract), see DESIGN.md")
+    for kind, nm_, curves in ((0, "vertical", [3, 4]), (1, "horizontal", [1, 3, 4, 5])):
+        for mode in (0, 1):
+            obs.append(dict(name="curve-barrier-%s%s" % (nm_, "-contained" if mode else ""), pkg="internal/geom", func="Harness_C20_intersect",
+                            consts={"KIND": kind, "SLN": 0, "SLD": 1, "SUMMARY_SOLVE3": 0, "MODE": mode},
+                            cubes=[{"CURVE": c} for c in curves], solver="z3-new", oneshot=True, qworkers=8, qtimeout=nm(tier == "quick", 120, 600), validate_cubes=0,
+                            bounds=nm_ + " barrier (both directions); " + B))
     return dict(obligations=obs)
 
 
